@@ -129,6 +129,13 @@ def run_case(case: dict) -> dict:
         w = World(comp["bp"])
         blueprint_probes(res, w)
         obs = Obs(w)
+        if "same-source-two-roles" in (case.get("exclude") or []):
+            from .c02 import same_source_two_roles
+
+            if same_source_two_roles(stmts):
+                res["status"] = "excluded"
+                res["excluded_by"] = "same-source-two-roles"
+                return res
         if "crosstalk" in (case.get("exclude") or []):
             labels = {n: k for k, v in obs.inputs.items() for n in v}
             if crosstalk_sites(w, [], labels, memory_ok=True):
